@@ -40,3 +40,37 @@ Theorem C07_bad_key_rejects :
     c_key c = Some k -> (forall m s, sigok k m s = false) -> snd (cs_next sha sigok c d) = None.
 Proof. exact bad_key_rejects. Qed.
 Print Assumptions C07_bad_key_rejects.
+
+(* ---------- the base64 layer of check_signature modelled (Signing.v) ----------
+   With the oracle narrowed to the RSA verifier on BYTES, "signature not base64" and "unparsable key" are
+   theorems about the model of cache/signing.rs, not assumptions about an opaque check. *)
+From UV Require Import Signing.
+
+Theorem C07_key_not_base64_rejects_every_patch :
+  forall sha (rsa : bytes -> string -> bytes -> bool) (c : cfg) (d : disk) (k : string),
+    c_key c = Some k -> b64_decode k = None ->
+    snd (cs_next sha (check_signature rsa) c d) = None.
+Proof.
+  intros sha rsa c d k Hk Hd. apply (bad_key_rejects sha (check_signature rsa) c d k Hk).
+  intros m s. apply key_not_base64_rejects_everything. exact Hd.
+Qed.
+Print Assumptions C07_key_not_base64_rejects_every_patch.
+
+Theorem C07_signature_not_base64_rejected :
+  forall (rsa : bytes -> string -> bytes -> bool) key msg sg,
+    b64_decode sg = None -> check_signature rsa key msg sg = false.
+Proof. exact signature_not_base64_rejected. Qed.
+Print Assumptions C07_signature_not_base64_rejected.
+
+Theorem C07_accepted_means_rsa_verified :
+  forall (rsa : bytes -> string -> bytes -> bool) key msg sg,
+    check_signature rsa key msg sg = true ->
+    exists kb sb, b64_decode key = Some kb /\ b64_decode sg = Some sb /\ rsa kb msg sb = true.
+Proof. exact accepted_means_verified. Qed.
+Print Assumptions C07_accepted_means_rsa_verified.
+
+(* the decoder accepts exactly what the same engine's encoder writes, and reads it back *)
+Theorem C07_base64_roundtrip :
+  forall l : bytes, wf_bytes l -> b64_decode (b64_encode l) = Some l.
+Proof. exact b64_decode_encode. Qed.
+Print Assumptions C07_base64_roundtrip.
